@@ -205,7 +205,13 @@ pub fn render(src: &str, decos: &[Deco]) -> Rendered {
                 Deco::LineComment(k) => {
                     out.push_str(orig);
                     let text = TEXTS[k as usize % TEXTS.len()];
-                    out.push_str(&format!(" // {}\n", text));
+                    // a line comment may start with a star (a banner, the comment toggle idiom): `//*` is
+                    // not the opening of a block comment
+                    match (k as usize / TEXTS.len()) % 4 {
+                        1 => out.push_str(&format!(" //* {}\n", text)),
+                        2 => out.push_str(&format!(" //*/ {}\n", text)),
+                        _ => out.push_str(&format!(" // {}\n", text)),
+                    }
                     if text.contains("/*") || text.contains('"') || text.contains('#') {
                         tricky = true;
                     }
@@ -294,7 +300,7 @@ fn gen_deco(g: &mut G, ex: &Excl) -> Deco {
         3 => Deco::CrLf,
         4 => Deco::BlankLines(1 + g.below(3) as u8),
         5 => Deco::Splice,
-        6 | 7 => Deco::LineComment(g.below(TEXTS.len()) as u8),
+        6 | 7 => Deco::LineComment(g.below(4 * TEXTS.len()) as u8),
         8..=10 => {
             let mut k = g.below(TEXTS.len()) as u8;
             if ex.has("block_comment_with_slashes") && TEXTS[k as usize].contains("//") {
